@@ -28,6 +28,7 @@ EXPLANATION = (
     ' Round 6: (17) SIB: bytes the strict UTF-8 codec rejects are measured by walking with decode_one(), as the offset functions do; no width / offset function uses a codec error policy of its own.'
     ' Round 7: (19) TAB: the pairing DEC_SPECIAL_CHARS / ALT_DEC_SPECIAL_CHARS (folded) equals the VT100 special graphics set for every alias letter ` .. ~ - the one table urwid cannot cross-check against itself; (20) SIB: every within_double_byte() call passes the caller\'s own start offset as line start; (21) BOUND: every text[o] read of the continuation-byte scans is guarded by the range limit (fix fad7df9).'
     ' Round 8: (18) extended: the byte count is a width under utf8 only behind a regex predicate that is exact - the pattern is parsed (re._parser): `$` admits a trailing newline, \\\\Z / fullmatch do not; (22) SIB: one width source - no unicodedata / direct wcwidth call outside get_char_width().'
+    ' Round-8 triage: (23) GUARD: no comparison decided by its own shape (x == x - 4; fix 39d8430).'
 )
 NOT_DECIDED = "Additivity of widths, offset/column agreement, str-vs-bytes agreement for every code point, the padding flags of trimming, DEC special character mapping values - exhaustive value questions over code points."
 ASSUMPTIONS = ["Canonical codec spellings are taken from the analysing interpreter's codec registry (codecs.lookup(name).name)."]
